@@ -138,7 +138,7 @@ def y_scripts(seed, count):
                 prog += "Q" if mx > 0 else "G"   # without workers nothing ever becomes quiescent-with-everything-run
             elif r < 0.925 and mx >= 2 and ("S" in prog or "K" in prog):
                 prog += "L"     # setMaxThreadCount(1) while workers exist
-            elif r < 0.95 and mx >= 2 and tasks < 5 and "L" not in prog:
+            elif r < 0.95 and mx >= 1 and tasks < 5 and "L" not in prog:
                 prog += "M"     # a second client thread calls start() concurrently with the owner (3 + 2 tasks)
                 tasks += 5
             else:
